@@ -545,6 +545,7 @@ void classify(World& W, Report& r)
   bool sink_threw = false;
   for (auto const& e : W.journal) if (e.kind == 'X') sink_threw = true;
   if (sink_threw) r.label("sink_write_threw");
+  if (g_nonstd_sink_throws) r.label("sink_threw_non_std_exception");
   bool flush_with_others = false;
   for (auto const& f : W.flushes) for (size_t si : f.must_be_written) if (W.stmts[si].w != f.w) flush_with_others = true;
   if (flush_with_others) r.label("flush_with_other_threads_statements");
